@@ -69,6 +69,12 @@ class Ev:
             q = self.idx.resolve_name(fn.module, e.id)
             if q and q in self.idx.classes:
                 return ("namedclass", q)
+            gv = fn.module.globals_.get(e.id) if hasattr(fn.module, "globals_") else None
+            if isinstance(gv, (ast.Dict, ast.Tuple, ast.List)):
+                try:  # a module-level table of constants (slot names per dtype ...)
+                    return self.ev(gv, {}, fn, conds)
+                except Unsupported:
+                    pass
             return ("opaque", e.id)
         if isinstance(e, ast.Tuple):
             return ("tuple", [self.ev(x, env, fn, conds) for x in e.elts])
@@ -86,7 +92,7 @@ class Ev:
                     return ("slot", e.attr)
                 if e.attr in self.attr_values:
                     return self.attr_values[e.attr]
-                return ("inst", e.attr)
+                return self._self_attr(e.attr, env, fn, conds)
             if base[0] == "clsref":
                 if e.attr in self.slots:
                     return ("slot", e.attr)
@@ -104,8 +110,32 @@ class Ev:
             idxv = self.ev(e.slice, env, fn, conds)
             if base[0] == "tuple" and idxv[0] == "const" and isinstance(idxv[1], int):
                 return base[1][idxv[1]]
+            if base[0] == "dict" and idxv[0] == "const":
+                for k_, v_ in base[1]:
+                    if k_ == idxv:
+                        return v_
+                raise Unsupported(f"key {idxv[1]!r} not in the table {short(e.value, 40)}")
+            if base[0] == "inst" and idxv == ("const", -1):
+                # immutable-stack idiom: the top of self.S is read here, the stack is shrunk by self.S = self.S[:-1]
+                self.effects.append(("peeked", base[1], list(conds), norm(e)))
+                return ("pop", base[1])
+            if base[0] == "inst" and idxv == ("slice", None, ("const", -1), None):
+                return ("shrunk", base[1])
             if base[0] in ("pop", "inst") and idxv[0] == "const":
                 return ("component", base, idxv[1])
+            return ("opaque", norm(e))
+        if isinstance(e, ast.Slice):
+            return ("slice",) + tuple(self.ev(x, env, fn, conds) if x is not None else None for x in (e.lower, e.upper, e.step))
+        if isinstance(e, ast.UnaryOp) and isinstance(e.op, ast.USub):
+            v = self.ev(e.operand, env, fn, conds)
+            if v[0] == "const" and isinstance(v[1], (int, float)) and not isinstance(v[1], bool):
+                return ("const", -v[1])
+            return ("opaque", norm(e))
+        if isinstance(e, ast.BinOp) and isinstance(e.op, ast.Add):
+            l_ = self.ev(e.left, env, fn, conds)
+            r_ = self.ev(e.right, env, fn, conds)
+            if l_[0] == "inst" and r_[0] in ("tuple", "list") and len(r_[1]) == 1:
+                return ("pushed", l_[1], r_[1][0])  # self.S + (x,): becomes a push when assigned back to self.S
             return ("opaque", norm(e))
         if isinstance(e, ast.Call):
             return self.call(e, env, fn, conds)
@@ -118,6 +148,8 @@ class Ev:
                     return ("const", l[1] == r[1])
                 if isinstance(op, (ast.NotEq, ast.IsNot)):
                     return ("const", l[1] != r[1])
+            if r == ("const", None) and l[0] in ("tuple", "list", "dict", "instance", "namedclass") and isinstance(op, (ast.Is, ast.IsNot, ast.Eq, ast.NotEq)):
+                return ("const", isinstance(op, (ast.IsNot, ast.NotEq)))
             return ("opaque", norm(e))
         if isinstance(e, ast.UnaryOp) and isinstance(e.op, ast.Not):
             v = self.ev(e.operand, env, fn, conds)
@@ -136,6 +168,8 @@ class Ev:
             return ("opaque", norm(e))
         if isinstance(e, (ast.GeneratorExp, ast.ListComp)) and len(e.generators) == 1:
             it = self.ev(e.generators[0].iter, env, fn, conds)
+            if it[0] == "dict":
+                it = ("list", [k_ for k_, _v in it[1]])
             if it[0] in ("tuple", "list"):
                 lazy = env.get("#lazy")
                 filt = [norm(c_) for c_ in e.generators[0].ifs]
@@ -146,11 +180,23 @@ class Ev:
                     c2 = conds + [f"short-circuit of {lazy}()"] if (lazy and k > 0) else conds
                     v_ = self.ev(e.elt, env2, fn, c2 + filt)
                     out_items.append(("cond", filt, v_) if filt else v_)
-                return ("list", out_items) if isinstance(e, ast.ListComp) else ("opaque", norm(e))
+                return ("list", out_items) if (isinstance(e, ast.ListComp) or env.get("#materialise")) else ("opaque", norm(e))
             raise Unsupported(f"comprehension over {short(e.generators[0].iter)}")
+        if isinstance(e, ast.Dict) and e.keys and all(k is not None for k in e.keys):
+            return ("dict", [(self.ev(k, env, fn, conds), self.ev(v, env, fn, conds)) for k, v in zip(e.keys, e.values)])
         if isinstance(e, (ast.JoinedStr, ast.BinOp, ast.Dict, ast.Starred)):
             return ("opaque", norm(e))
         raise Unsupported(f"expression {short(e)}")
+
+    def _self_attr(self, attr: str, env, fn, conds):
+        """self.<attr> that is neither a slot nor a tuple-valued attribute bound in __init__."""
+        prop_ = self.idx.resolve_method(self.cls, attr)
+        if prop_ is not None and prop_.is_property():
+            return self.inline(prop_, [], {}, conds, via="self")
+        tbl = self._class_table(attr, env, fn, conds)  # class-level table read through the instance (self._part_names)
+        if tbl is not None and tbl[1] and all((x[0] == "const") if tbl[0] == "tuple" else (x[0][0] == "const") for x in tbl[1]):
+            return tbl  # a non-empty table of constants; an (empty) class-level list is mutable state, not a table
+        return ("inst", attr)
 
     def _class_table(self, attr: str, env, fn, conds):
         """A class attribute bound to a dict / tuple display of constants: ("dict", [(k, v)...]) / ("tuple", [...])."""
@@ -174,6 +220,12 @@ class Ev:
         if isinstance(f, ast.Name) and f.id in ("getattr", "setattr") and len(e.args) >= 2:
             tgt = self.ev(e.args[0], env, fn, conds)
             nm = self.ev(e.args[1], env, fn, conds)
+            if tgt[0] == "self" and nm[0] == "const" and isinstance(nm[1], str) and f.id == "getattr" and len(e.args) == 2:
+                if nm[1] in self.slots:
+                    return ("slot", nm[1])
+                if nm[1] in self.attr_values:
+                    return self.attr_values[nm[1]]
+                return self._self_attr(nm[1], env, fn, conds)
             if tgt[0] == "clsref" and nm[0] == "const" and isinstance(nm[1], str):
                 if f.id == "getattr":
                     return ("slot", nm[1]) if nm[1] in self.slots else ("clsattr", nm[1])
@@ -181,10 +233,34 @@ class Ev:
                     v = self.ev(e.args[2], env, fn, conds)
                     self.effects.append(("slotwrite", nm[1], v, list(conds), norm(e), "cls"))
                     return ("const", None)
+            if tgt[0] == "self" and nm[0] == "const" and isinstance(nm[1], str) and f.id == "setattr" and len(e.args) == 3:
+                self.effects.append(("setattr", nm[1], self.ev(e.args[2], env, fn, conds), list(conds), norm(e)))
+                return ("const", None)
             if tgt[0] == "namedclass" and nm[0] == "const" and f.id == "setattr" and len(e.args) == 3:
                 self.effects.append(("slotwrite", nm[1], self.ev(e.args[2], env, fn, conds), list(conds), norm(e), "named:" + tgt[1]))
                 return ("const", None)
             raise Unsupported(f"{f.id} on {short(e.args[0])} with a name that is not a constant of a class-level table")
+        if isinstance(f, ast.Name) and f.id == "isinstance" and len(e.args) == 2:
+            v0 = self.ev(e.args[0], env, fn, conds)
+            ty = norm(e.args[1])
+            if v0[0] == "const" and isinstance(v0[1], str) and v0[1].startswith("torch."):
+                # the dtype constants the getter is evaluated with: torch.float is a torch.dtype, not a Tensor
+                return ("const", "dtype" in ty and "Tensor" not in ty)
+            if v0[0] == "const" and ("Tensor" in ty):
+                return ("const", False)
+            return ("opaque", norm(e))
+        if isinstance(f, ast.Attribute) and f.attr == "get" and 1 <= len(e.args) <= 2:
+            b0 = self.ev(f.value, env, fn, conds)
+            if b0[0] == "dict":
+                k0 = self.ev(e.args[0], env, fn, conds)
+                if k0[0] == "const":
+                    for k_, v_ in b0[1]:
+                        if k_ == k0:
+                            return v_
+                    return self.ev(e.args[1], env, fn, conds) if len(e.args) == 2 else ("const", None)
+        if isinstance(f, ast.Name) and f.id in env and env[f.id][0] == "namedclass":
+            return ("instance", env[f.id][1], [self.ev(a, env, fn, conds) for a in e.args],
+                    {k.arg: self.ev(k.value, env, fn, conds) for k in e.keywords if k.arg})
         if isinstance(f, ast.Name) and f.id == "zip" and e.args:
             seqs = [self.ev(a, env, fn, conds) for a in e.args]
             if all(sq[0] in ("tuple", "list") for sq in seqs):
@@ -219,7 +295,16 @@ class Ev:
             env2["#lazy"] = f.id  # a generator consumed by all()/any() stops at the first falsy / truthy element
             self.ev(e.args[0], env2, fn, conds)
             return ("opaque", norm(e))
-        args = [self.ev(a, env, fn, conds) for a in e.args]
+        args = []
+        for a in e.args:
+            if isinstance(a, ast.Starred) and isinstance(a.value, (ast.GeneratorExp, ast.ListComp, ast.Tuple, ast.List)):
+                env_m = dict(env)
+                env_m["#materialise"] = True
+                sv = self.ev(a.value, env_m, fn, conds)
+                if sv[0] in ("tuple", "list") and not any(x[0] == "cond" for x in sv[1]):
+                    args += list(sv[1])  # f(*(g(x) for x in TABLE)): one argument per table entry
+                    continue
+            args.append(self.ev(a, env, fn, conds))
         kwargs = {k.arg: self.ev(k.value, env, fn, conds) for k in e.keywords if k.arg}
         if isinstance(f, ast.Name) and f.id == "type" and len(args) == 1 and args[0][0] == "self":
             return ("clsref",)
@@ -358,6 +443,8 @@ class Ev:
             return r1 and r2
         if isinstance(st, ast.For) and not st.orelse:
             it = self.ev(st.iter, env, fn, conds)
+            if it[0] == "dict":
+                it = ("list", [k_ for k_, _v in it[1]])  # iterating a dict yields its keys
             if it[0] in ("tuple", "list"):
                 for item in it[1]:
                     c_extra = []
@@ -394,6 +481,12 @@ class Ev:
         if isinstance(t, ast.Attribute):
             base = self.ev(t.value, env, fn, conds)
             if base[0] == "self":
+                if v[0] == "pushed" and v[1] == t.attr:
+                    self.effects.append(("push", t.attr, v[2], list(conds), text))
+                    return
+                if v == ("shrunk", t.attr):
+                    self.effects.append(("popped", t.attr, list(conds), text))
+                    return
                 self.effects.append(("setattr", t.attr, v, list(conds), text))
                 return
             if base[0] == "clsref":
@@ -488,6 +581,12 @@ def slots_of(idx: ProgramIndex, cls: ClassInfo) -> set:
                     if isinstance(n.args[1], ast.Constant) and isinstance(n.args[1].value, str):
                         out.add(n.args[1].value)
     if uses_setattr:
+        # names held in a module-level table (a dict / tuple of strings, possibly nested in tuples)
+        for gname, gv in getattr(cls.module, "globals_", {}).items():
+            if isinstance(gv, (ast.Dict, ast.Tuple, ast.List)):
+                for x in ast.walk(gv):
+                    if isinstance(x, ast.Constant) and isinstance(x.value, str) and any(x.value in kk.class_attrs for kk in cls.mro):
+                        out.add(x.value)
         for k in cls.mro:
             for nm, v in k.class_attrs.items():
                 vals = v.values if isinstance(v, ast.Dict) else (v.elts if isinstance(v, (ast.Tuple, ast.List)) else [])
@@ -603,7 +702,13 @@ def check_leaf(idx: ProgramIndex, rep: Report, cls: ClassInfo, defining: bool):
                 if good and order_ok and not push[3]:
                     rep.ok("C17.S1", {"class": who, "slot": s, "captured_in": "__enter__", "capture": push[4]})
                     created = init_sets.get(attr) if init else None
-                    if created is not None and created[2][0] in ("list",) and not created[2][1] and not created[3]:
+                    peeks = [x for x in exit_.effects if x[0] == "peeked" and x[1] == attr]
+                    pops = [x for x in exit_.effects if x[0] == "popped" and x[1] == attr]
+                    if peeks and (not pops or any(p_[2] for p_ in pops) or exit_.effects.index(pops[0]) < exit_.effects.index(peeks[0])):
+                        rep.bad("C17.S2", F("C17.S2", exit_.fn, peeks[0][3], f"the top of self.{attr} is read on exit but the stack is "
+                                            "not shrunk afterwards (unconditionally): the next exit of the same object restores the same "
+                                            "captured value again"))
+                    elif created is not None and created[2][0] in ("list", "tuple") and not created[2][1] and not created[3]:
                         rep.ok("C17.S2", {"class": who, "slot": s, "per_entry": f"push/pop on self.{attr}",
                                           "stack_created_per_instance_in": "__init__"})
                     else:
@@ -1009,7 +1114,13 @@ def run(idx: ProgramIndex, rep: Report, tier: str, selftest: bool = True):
     rep.analysed["abstract_protocol_bases"] = abstract_bases
 
     for name, c in sorted(composites.items()):
+        # an abstract composite base (shared part-by-part enter / exit, no constructor of its own) is checked through each
+        # of its concrete subclasses, as resolved on them
+        if idx.resolve_method(c, "__init__") is None and any(c in k.mro[1:] for k in composites.values()):
+            abstract_bases.append(name)
+            continue
         check_composite(idx, rep, c, leaves)
+    rep.analysed["abstract_protocol_bases"] = abstract_bases
 
     check_s7(idx, rep, {c.name: c for c in ctx})
 
